@@ -493,6 +493,27 @@ def pop_use(db, cg, pop, wp):
             return 'the popped packet is returned'
     if not npop:
         return 'no path pops'
+    # what the callers' `while self._pop_packet()` loops rely on: the result
+    # says whether a packet was written
+    for p in S.run(pop):
+        if not p.returns and p.outcome[0] != 'fall':
+            continue
+        evs = p.flat(('call',))
+        wrote = any(e.calls(wp) and not e.raised for e in evs)
+        v = p.value if p.returns else ('const', None)
+        if v is None:
+            v = ('const', None)
+        if v[0] != 'const':
+            return 'returns %s: whether a packet was written is not what ' \
+                'it reports' % (v,)
+        if bool(v[1]) != wrote:
+            return 'returns %r on the path that %s a packet [%s]: the ' \
+                'loops `while self._pop_packet()` (the write pass, the flush ' \
+                'of a non-immediate disconnect) then %s' % (
+                    v[1], 'wrote' if wrote else 'did not write',
+                    p.cond_text(), 'stop after the first packet and leave '
+                    'the rest of the queue unsent' if wrote
+                    else 'never end')
     return None
 
 
